@@ -30,7 +30,7 @@ func Generate(genseed uint64, stream string, thorough bool) *Case {
 		o.MaxNodes = 12 + r.Intn(13)
 	}
 	switch stream {
-	case "contention":
+	case "contention", "extended":
 		o.MinNodes, o.MaxNodes = 10, 20
 	case "twin":
 		o.Twins = true
@@ -158,11 +158,32 @@ func Generate(genseed uint64, stream string, thorough bool) *Case {
 
 	switch stream {
 	case "extended":
-		// ExtendedCopyGraph / ExtendedCopy from a graph source (memory, OCI layout), callbacks nil or set
+		// ExtendedCopyGraph / ExtendedCopy from a graph source (memory, OCI layout), callbacks nil or
+		// set.  The node is one with several roots above it (e.g. a subject with referrers, a shared
+		// blob): the roots are copied concurrently and share ONE limiter, so the in-flight bound is
+		// Concurrency for the whole call; small K and slow storage make a violation visible.
 		c.Mode = common.Pick(r, []string{"x", "X"})
-		c.Src = common.Pick(r, []string{"mem", "oci", "ocire"})
-		c.Dst = common.Pick(r, []string{"mem", "oci", "file"})
+		c.Src = common.Pick(r, []string{"mem", "mem", "oci", "ocire"})
+		c.Dst = common.Pick(r, []string{"mem", "mem", "oci", "file"})
 		c.RefFetch, c.MapRoot, c.Platform, c.Mount = false, -1, "", false
+		c.K = common.Pick(r, []int{1, 2, 2, 3, 0})
+		c.Slow = r.Chance(2, 3)
+		best, bestRoots := c.Root, -1
+		for _, i := range nonforeign {
+			k := 0
+			for _, rt := range g.Roots() {
+				if g.Reach(rt)[i] {
+					k++
+				}
+			}
+			if k > bestRoots || (k == bestRoots && r.Chance(1, 3)) {
+				best, bestRoots = i, k
+			}
+		}
+		if r.Chance(4, 5) {
+			c.Root = best
+		}
+		set = g.RandomClosedSubset(r, common.Pick(r, []int{0, 0, 10}))
 	case "rootpresent":
 		// Copy whose root is already in the destination: {Tagger, ReferencePusher} x {OnCopySkipped nil, set}
 		c.Mode = common.Pick(r, []string{"t", "r"})
